@@ -149,7 +149,7 @@ package fstxn
 //@   requires [D2-heldmarked] heldMarked() @C06
 //@   preserves [allocInv] allocInv() @C15 @C04
 //@   allocates cache.Cslot, inode.Inode, []uint64, buf.Buf, marshal.Dec, marshal.Enc, cell:uint64, []uint8
-//@   modifies held, cache.Cslot.Obj, map[uint64]*inode.Inode, abits, freshinum, dirtyinum, wroteinum, op.Atxn.allocInums, []uint64@alloctxn.AllocTxn.allocInums, inode.Inode.Kind, inode.Inode.Nlink, inode.Inode.Gen, inode.Inode.Atime, inode.Inode.Mtime, inode.Inode.Inum
+//@   modifies held, cache.Cslot.Obj, map[uint64]*inode.Inode, abits, freshinum, dirtyinum, wroteinum, op.Atxn.allocInums, []uint64@alloctxn.AllocTxn.allocInums, inode.Inode.Kind, inode.Inode.Nlink, inode.Inode.Gen, inode.Inode.Atime, inode.Inode.Mtime, inode.Inode.Inum, nldec
 //@   panic_assumed "AllocInode"
 //@   ensures [F6-alloc] result != nil ==> validInum(result.Inum) && held == store(old(held), result.Inum, true) && !old(held)[result.Inum] && inodeInv(result) && !dirtyinum[result.Inum] @C05
 //@   ensures [F6-newinum] result != nil ==> freshinum[result.Inum] @C05 @C04
